@@ -36,11 +36,11 @@ def find_target(L, t):
         host = find_target(L, {'qname': t.get('lambda_in') or t.get('region_in') or t.get('local_method_in'), 'type': t.get('host_type'),
                                'targs': t.get('host_targs')})
         return host
+    def natkey(s):
+        return [int(x) if x.isdigit() else x for x in re.split(r'(\d+)', s)]
     if 'qname_re' in t:
         # names that embed a source position (instantiations over a lambda type: "(lambda at file:line:col)")
         # are matched by pattern; `nth` picks among the matches in source order of the embedded position
-        def natkey(s):
-            return [int(x) if x.isdigit() else x for x in re.split(r'(\d+)', s)]
         names = sorted((q for q in idx.funcs if re.fullmatch(t['qname_re'], q)), key=natkey)
         names = [q for q in names if any(Index.has_body(n) and n['id'] not in idx.pattern for n in idx.funcs[q])]
         if t.get('expect_matches') is not None and len(names) != t['expect_matches']:
@@ -55,6 +55,14 @@ def find_target(L, t):
         cands = [n for n in cands if n['type']['qualType'] == t['type']]
     if t.get('type_re'):
         cands = [n for n in cands if re.fullmatch(t['type_re'], n['type']['qualType'])]
+    if t.get('type_nth') is not None:
+        # several instantiations told apart only by an embedded lambda position: pick by source order, not by line number
+        uq = sorted({n['type']['qualType'] for n in cands}, key=natkey)
+        if t.get('expect_matches') is not None and len(uq) != t['expect_matches']:
+            raise InfraError('contract no longer attached: %s has %d instantiations matching %s, spec expects %d' % (t['qname'], len(uq), t.get('type_re'), t['expect_matches']))
+        if t['type_nth'] >= len(uq):
+            raise InfraError('contract no longer attached: %s has only %d instantiations matching %s' % (t['qname'], len(uq), t.get('type_re')))
+        cands = [n for n in cands if n['type']['qualType'] == uq[t['type_nth']]]
     if t.get('targs'):
         want = [cxx2c.strip_const_deep(a) for a in t['targs']]
         cands = [n for n in cands if [cxx2c.strip_const_deep(a) for a in idx._targs(n)] == want]
